@@ -24,6 +24,7 @@ type Env struct {
 	mem  *MemState
 	old  *Env
 	prev *Env
+	ghosts map[string]string // ghost counter name -> memory key
 	pkg  *types.Package
 	// side obligations produced while evaluating (bounds of spec indexing are
 	// not generated: specs are total functions over arrays)
@@ -232,6 +233,9 @@ func (ev *Env) eval(e *Expr) Val {
 		}
 		if v, ok := ev.vars[e.S]; ok {
 			return v
+		}
+		if key, ok := ev.ghosts[e.S]; ok {
+			return bvVal(app("select", ev.c.memRaw(ev.mem, key), "0"), 64, true, types.Typ[types.Int])
 		}
 		if sf, ok := ev.v.cs.Specs[e.S]; ok && len(sf.Params) == 0 {
 			return ev.callSpec(sf, nil)
